@@ -556,7 +556,14 @@ def run():
                 x["rf"] += 1
             elif x["kind"] == "ld":
                 x["pairs"][0][2] = [x["pairs"][0][2][0] + 1, max(1, x["pairs"][0][2][1]) + 1]
-            elif x["kind"] in ("fst", "gnn", "meandesc"):
+            elif x["kind"] == "fst":
+                # only windows where the ratio is defined are constrained: change every entry that is a proper value other than 1
+                hit = [(w, i) for w, row in enumerate(x["result"]) for i, pq in enumerate(row) if pq[1] != 0 and pq[0] != pq[1]]
+                if not hit:
+                    continue
+                for w, i in hit:
+                    x["result"][w][i] = [x["result"][w][i][0] + 1, x["result"][w][i][1] + 2]
+            elif x["kind"] in ("gnn", "meandesc"):
                 x["result"][0][0] = [x["result"][0][0][0] + 1, x["result"][0][0][1] + 2]
             elif x["kind"] == "paircoal" or x["mode"] == "node" and x["kind"] == "count":
                 x["result"][0][0][0] += 1
